@@ -1,3 +1,5 @@
 import Dicom.Model.Bytes
 import Dicom.Spec.StatusSpec
+import Dicom.Spec.Table910
 import Dicom.Props.C18
+import Dicom.Props.C04
